@@ -127,6 +127,29 @@ impl GitDiff {
         Ok(())
     }
 
+    /// Open the index file at `path`; a file that does not exist is an empty index, as for git.
+    fn open_index_file(repo: &gix::Repository, path: PathBuf) -> Result<gix::index::File> {
+        match gix::index::File::at(
+            path.clone(),
+            repo.object_hash(),
+            false,
+            gix::index::decode::Options::default(),
+        ) {
+            Ok(file) => Ok(file),
+            Err(gix::index::file::init::Error::Io(e))
+                if e.kind() == std::io::ErrorKind::NotFound =>
+            {
+                Ok(gix::index::File::from_state(
+                    gix::index::State::new(repo.object_hash()),
+                    path,
+                ))
+            }
+            Err(e) => Err(SlocGuardError::Git(format!(
+                "Failed to open git index: {e}"
+            ))),
+        }
+    }
+
     /// Get files staged for commit (index differs from HEAD).
     ///
     /// # Errors
@@ -135,10 +158,25 @@ impl GitDiff {
         let repo = self.open_repo()?;
 
         // Get index (staging area); a repository where nothing was ever added has no
-        // index file yet, which is an empty index
-        let index = repo
-            .index_or_empty()
-            .map_err(|e| SlocGuardError::Git(format!("Failed to open git index: {e}")))?;
+        // index file yet, which is an empty index. GIT_INDEX_FILE names the index git itself
+        // is using: while the hooks of `git commit -a` / `git commit <paths>` run, what is
+        // about to be committed is staged there and not in the repository's own index file.
+        let own_index;
+        let named_index;
+        let index: &gix::index::File = match std::env::var_os("GIT_INDEX_FILE")
+            .filter(|name| !name.is_empty())
+        {
+            Some(name) => {
+                named_index = Self::open_index_file(&repo, PathBuf::from(name))?;
+                &named_index
+            }
+            None => {
+                own_index = repo.index_or_empty().map_err(|e| {
+                    SlocGuardError::Git(format!("Failed to open git index: {e}"))
+                })?;
+                &own_index
+            }
+        };
 
         // Get HEAD tree (if exists) - new repos have no commits yet
         // Use HashMap for O(1) lookup instead of HashSet with O(n) search
@@ -170,7 +208,7 @@ impl GitDiff {
             {
                 continue;
             }
-            let path_str = String::from_utf8_lossy(entry.path(&index)).to_string();
+            let path_str = String::from_utf8_lossy(entry.path(index)).to_string();
             let path = PathBuf::from(&path_str);
 
             // O(1) lookup instead of O(n) search; a staged chmod changes the entry as well
